@@ -12,6 +12,11 @@ Families (all cases are in the case format of harness/c11.py, so the C11 exact-r
            "label order, dE < 0 => flip, dE > 0 => keep" (ties: either), written here from the property text
   tiefree  (c) tie-free Matrix models (coefficients distinct signed powers of two, every variable in a term / with a
            linear term): the final state equals THE reference sweep (flip iff dE < 0); no tie may occur
+  mapping  replay / zero cases on labelled objects (QUSO, PUSO, PCSO, QUBO, PUBO, PCBO) whose label -> integer mapping was
+           set by the user with set_mapping / set_reverse_mapping: a random permutation given in a dict whose insertion
+           order differs from the index order, or in index order with permuted labels; asymmetric initial states as
+           dicts, 40% of them strict local minima (which T = 0 must return unchanged).  The model (`c12_anneal`) is fed
+           the mapping read by index — the data the code reads — never the insertion order of the dicts
   chi2     (d) SUPPORTING STATISTICAL TEST, not proof — thorough tier (and the failing-input search of the quick tier):
            ~2*10^5 anneals of 2-3-spin models, k <= 3 sweeps from a given state, both visiting orders, one fresh seed
            per anneal; chi-square of the empirical final-state distribution against the exact k-step single-spin
@@ -26,7 +31,7 @@ from .common import Labels, fs, exc_name
 
 CEXT = "plain"
 RULE = ("calls of anneal_quso/puso/qubo/pubo on dict / labelled / Matrix inputs (2..8 variables, dyadic coefficients, "
-        "no cancelled terms), explicit schedules of 0..80 sweeps (T>0, T=0, mixed, cooling) and 'linear'/'geometric', "
+        "no cancelled terms; labelled objects with the automatic or a user-set permuted mapping), explicit schedules of 0..80 sweeps (T>0, T=0, mixed, cooling) and 'linear'/'geometric', "
         "initial_state or random start, in_order or random visiting, seeds in [0, 2^31), num_anneals 1..3; "
         "zero/tiefree: schedules of zeros with a supplied initial state; non-trivial = the C kernel ran on >= 2 spins "
         "with >= 1 term of degree >= 2 and a non-empty schedule; distinct = distinct case JSON")
@@ -95,6 +100,63 @@ def gen_init(rng, fn, kind, ids):
     dom = range(max(ids) + 1) if kind in MATRIX else ids
     return [[i, rng.choice([1, -1] if spin else [0, 1])] for i in dom]
 
+LABELLED = {"QUSO", "PUSO", "PCSO", "QUBO", "PUBO", "PCBO"}
+
+def gen_mapping(rng, ops):
+    """a user-chosen label -> integer mapping for the variables of `ops` (a permutation of 0..n-1), as the ordered
+    pairs handed to set_mapping / set_reverse_mapping"""
+    vs = sorted({i for k, _ in ops for i in k})
+    n = len(vs)
+    if n < 2:
+        return None
+    perm = list(range(n))
+    while perm == list(range(n)) and n > 1:
+        rng.shuffle(perm)
+    pairs = [[v, perm[j]] for j, v in enumerate(vs)]            # label v gets integer perm[j]
+    style = rng.choice(["shuffled", "shuffled", "by-label", "index-order"])
+    if style == "shuffled":
+        rng.shuffle(pairs)
+    elif style == "index-order":
+        pairs.sort(key=lambda p: p[1])                           # insertion order = index order, labels permuted
+    return {"how": rng.choice(["set_mapping", "set_reverse_mapping"]), "style": style, "pairs": pairs}
+
+def mapping_by_index(case):
+    m = case.get("mapping")
+    return None if not m else [v for v, _ in sorted(m["pairs"], key=lambda p: p[1])]
+
+def local_minimum(rng, case, ids):
+    """a strict local minimum of the model reached by greedy descent from a random state (None if none was found)"""
+    spin = case["fn"] in SPIN_FNS
+    poly = model_poly(case)
+    x = {i: rng.choice([1, -1] if spin else [0, 1]) for i in ids}
+    for _ in range(64):
+        moved = False
+        for i in ids:
+            y = flipped(x, i, spin)
+            if energy(poly, y) < energy(poly, x):
+                x, moved = y, True
+        if not moved:
+            break
+    if all(energy(poly, flipped(x, i, spin)) > energy(poly, x) for i in ids):
+        return [[i, x[i]] for i in ids]
+    return None
+
+def add_mapping(rng, case, want_minimum):
+    if case["kind"] not in LABELLED:
+        return case
+    m = gen_mapping(rng, case["ops"])
+    if m is None:
+        return case
+    case["mapping"] = m
+    vs = sorted({i for k, _ in case["ops"] for i in k})
+    if case["init"] is not None:
+        case["init"] = [[i, v] for i, v in case["init"] if i in vs]      # exactly the variables of the model
+        if want_minimum and rng.random() < 0.4:
+            lm = local_minimum(rng, case, vs)
+            if lm is not None:
+                case["init"] = lm
+    return case
+
 def gen_replay(rng, maxdur):
     fn = rng.choice(["quso", "puso", "qubo", "pubo"])
     kind = rng.choice(KINDS[fn])
@@ -113,6 +175,22 @@ def gen_replay(rng, maxdur):
             "in_order": rng.random() < 0.5,
             "seed": rng.choice([0, 1, 2, 3, 2 ** 31 - 1] + [rng.randrange(2 ** 31) for _ in range(10)]),
             "num_anneals": rng.choice([1, 1, 2, 3])}
+
+def gen_replay_mapping(rng, maxdur):
+    while True:
+        c = gen_replay(rng, maxdur)
+        if c["kind"] in LABELLED:
+            break
+    if c["init"] is None and rng.random() < 0.7:
+        c["init"] = gen_init(rng, c["fn"], c["kind"], sorted({i for k, _ in c["ops"] for i in k}))
+    return add_mapping(rng, c, False)
+
+def gen_zero_mapping(rng):
+    while True:
+        c = gen_zero(rng)
+        if c["kind"] in LABELLED:
+            break
+    return add_mapping(rng, c, True)
 
 def gen_zero(rng):
     fn = rng.choice(["quso", "puso", "qubo", "pubo"])
@@ -161,6 +239,51 @@ def gen_kernel(rng, maxdur):
     c["Ts"] = [rng.choice([0.0, rng.uniform(0.01, 6), rng.uniform(0.01, 6)]) for _ in range(dur)]
     c["c12"] = "kernel"
     return c
+
+# ------------------------------------------------------------------ implementation / model side (with user-set mappings)
+
+def build_obj(case):
+    obj, L = c11.build_obj(case)
+    m = case.get("mapping")
+    if m:
+        if m["how"] == "set_mapping":
+            obj.set_mapping({L.lab(v): k for v, k in m["pairs"]})
+        else:
+            obj.set_reverse_mapping({k: L.lab(v) for v, k in m["pairs"]})
+    return obj, L
+
+def run_impl(case):
+    """c11.run_impl with the user-set mapping applied to the object (same 7-tuple)"""
+    if not case.get("mapping"):
+        return c11.run_impl(case)
+    import qubovert.sim as sim
+    obj, L = build_obj(case)
+    kw, sched_data = c11.schedule_args(case, obj)
+    init = None if case["init"] is None else {L.lab(i): v for i, v in case["init"]}
+    c = c11.cap(); c.last = None
+    try:
+        with warnings.catch_warnings():
+            warnings.simplefilter("ignore")
+            res = getattr(sim, "anneal_" + case["fn"])(obj, num_anneals=case["num_anneals"], initial_state=init,
+                                                       in_order=case["in_order"], seed=case["seed"], **kw)
+    except c11.UnsafeKernelCall as e:
+        return {"err": "other"}, None, obj, L, sched_data, c.last, str(e)
+    except Exception as e:
+        return {"err": exc_name(e)}, None, obj, L, sched_data, c.last, repr(e)
+    try:
+        canon = {"results": [{"state": sorted([L.ident(k), int(v)] for k, v in r.state.items()), "value": fs(r.value),
+                              "spin": bool(r.spin)} for r in res],
+                 "best": None if res.best is None else fs(res.best.value),
+                 "call": c11.canon_call(c.last if (c.last and "out" in c.last) else None)}
+    except Exception as e:
+        return {"err": "canon:" + repr(e)}, res, obj, L, sched_data, c.last, repr(e)
+    return canon, res, obj, L, sched_data, c.last, None
+
+def model_line(case, sched_data):
+    line = c11.model_line(case, sched_data)
+    if case.get("mapping"):
+        line = dict(line, op="c12_anneal", mapping=mapping_by_index(case))
+    return line
 
 # ------------------------------------------------------------------ independent reading of the input and the energy
 
@@ -230,16 +353,25 @@ def zero_oracle(case, canon, res, L):
         return ("C12:count", "returned %d results for num_anneals=%d" % (len(res), case["num_anneals"]))
     matrix_in_order = case["in_order"] and case["kind"] in MATRIX_OF[case["fn"]]
     ref_set = ref_one = None
+    strict_min = all(energy(poly, flipped(x0, i, spin)) > e0 for i in x0)
+    how = ""
+    if case.get("mapping"):
+        how = " [object with %s(%s)]" % (case["mapping"]["how"], case["mapping"]["pairs"])
     for idx, r in enumerate(res):
         st = {L.ident(k): int(v) for k, v in r.state.items()}
         if Fraction(r.value) > e0:
             return ("C12:zero-temperature-value-increased",
-                    "result %d: value %s > value %s of the supplied initial state %s (schedule of %d zeros, in_order=%s)"
-                    % (idx, r.value, e0, x0, sweeps, case["in_order"]))
+                    "result %d: value %s > value %s of the supplied initial state %s (schedule of %d zeros, in_order=%s)%s"
+                    % (idx, r.value, e0, x0, sweeps, case["in_order"], how))
         if set(st) != set(x0):
             continue        # domain questions are C11's
         if Fraction(r.value) != energy(poly, st):
             return ("C12:value", "result %d: value %s but the model evaluates to %s at its state" % (idx, r.value, energy(poly, st)))
+        if strict_min and st != x0:
+            return ("C12:zero-temperature-left-strict-local-minimum",
+                    "result %d: the supplied initial state %s is a strict local minimum (every single flip raises the "
+                    "energy), so no step may be taken at T = 0, but the result is %s (schedule of %d zeros, in_order=%s)%s"
+                    % (idx, x0, st, sweeps, case["in_order"], how))
         if sweeps == 0 and st != x0:
             return ("C12:empty-schedule-moved", "result %d: state %s differs from the initial state %s with an empty schedule"
                     % (idx, st, x0))
@@ -270,7 +402,7 @@ def zero_oracle(case, canon, res, L):
 def plain_call(case):
     """the real call; returns a comparable value (list of (sorted state items, value) in order, or an error name)"""
     import qubovert.sim as sim
-    obj, L = c11.build_obj(case)
+    obj, L = build_obj(case)
     kw, _ = c11.schedule_args(case, obj)
     init = None if case["init"] is None else {L.lab(i): v for i, v in case["init"]}
     try:
@@ -466,9 +598,9 @@ def process(ctx, cases):
     k_cases = [c for c in cases if c.get("family") == "kernel"]
     impls, lines = [], []
     for c in a_cases:
-        r = c11.run_impl(c)
+        r = run_impl(c)
         impls.append(r)
-        lines.append(c11.model_line(c, r[4]))
+        lines.append(model_line(c, r[4]))
     models = common.run_driver(lines)
     for c, (canon, res, obj, L, _sd, call, detail), m in zip(a_cases, impls, models):
         m = c11.canon_model(m)
@@ -478,6 +610,8 @@ def process(ctx, cases):
         temp = "named" if Ts is None else ("empty" if not Ts else "T=0" if not any(Ts) else "T>0" if all(Ts) else "mixed")
         ctx.count("%s:%s:%s:%s" % (fam, c["fn"], "in_order" if c["in_order"] else "random", temp))
         ctx.count("kind:" + c["kind"])
+        if c.get("mapping"):
+            ctx.count("mapping:%s:%s:%s" % (fam, c["mapping"]["how"], c["mapping"]["style"]))
         if Ts is not None:
             ctx.count("sweeps:%s" % ("0" if not Ts else "1-9" if len(Ts) < 10 else "10-39" if len(Ts) < 40 else "40+"))
         if canon != m:
@@ -526,8 +660,10 @@ def check(ctx):
     zero_cases = [gen_zero(rng) for _ in range(ctx.scale(1500, 12000))]
     tie_cases = [gen_tiefree(rng) for _ in range(ctx.scale(1000, 9000))]
     kernel_cases = [gen_kernel(rng, maxdur) for _ in range(ctx.scale(400, 3000))]
-    process(ctx, replay_cases + zero_cases + tie_cases + kernel_cases)
-    repro_family(ctx, [c for c in replay_cases[:ctx.scale(500, 4000)]], replay_cases)
+    map_cases = ([gen_replay_mapping(rng, maxdur) for _ in range(ctx.scale(500, 4000))] +
+                 [gen_zero_mapping(rng) for _ in range(ctx.scale(900, 7000))])
+    process(ctx, replay_cases + zero_cases + tie_cases + kernel_cases + map_cases)
+    repro_family(ctx, replay_cases[:ctx.scale(400, 3500)] + map_cases[:ctx.scale(100, 500)], replay_cases)
     if ctx.tier == "thorough":
         chi2_family(ctx, 25000)        # 8 configurations x 25 000 = 2*10^5 anneals
     if ctx.diffs and not ctx.violations:
@@ -554,9 +690,10 @@ def search(ctx):
         bad = repro_oracle(c, [ctx.rng.choice([x["case"] for x in ctx.diffs if x["case"].get("family") == "anneal"])])
         if bad:
             ctx.violation(bad[0], dict(c, c12="repro", others=[]), bad[1])
-    extra += [gen_zero(ctx.rng) for _ in range(600)] + [gen_tiefree(ctx.rng) for _ in range(600)]
+    extra += ([gen_zero(ctx.rng) for _ in range(600)] + [gen_tiefree(ctx.rng) for _ in range(600)] +
+              [gen_zero_mapping(ctx.rng) for _ in range(600)])
     for c in extra:
-        canon, res, obj, L, _sd, call, detail = c11.run_impl(c)
+        canon, res, obj, L, _sd, call, detail = run_impl(c)
         bad = zero_oracle(c, canon, res, L)
         if bad:
             ctx.violation(bad[0], c, bad[1])
